@@ -235,9 +235,16 @@ func checkC03(c *Ctx) {
 	for b := 0; b < nBig; b++ {
 		p := []bt.Op{createOp(btTable)}
 		op := bt.Op{Ev: "MutateRows", T: btTable, Now: 5000}
-		for _, k := range advKeys[:3+g.pick(4)] {
+		bigKeys := advKeys[:3+g.pick(4)]
+		if b%2 == 0 {
+			bigKeys = advKeys[:5+g.pick(3)] // enough rows for a message boundary to fall before a late limit
+		}
+		for _, k := range bigKeys {
 			var ms []bt.Mut
 			nc := 150 + g.pick(300)
+			if b%2 == 0 {
+				nc = 350 + g.pick(100)
+			}
 			for i := 0; i < nc; i++ {
 				ms = append(ms, bt.Mut{M: "set", F: genFams[i%2], Q: j.S(string(rune('a' + i%5))), Ts: j.N64(int64(i/10) * 1000), V: j.B{byte(i), byte(i >> 8)}})
 			}
@@ -246,9 +253,11 @@ func checkC03(c *Ctx) {
 		p = append(p, op)
 		p = append(p, bt.Op{Ev: "ReadRows", T: btTable, WantChunks: true})
 		p = append(p, bt.Op{Ev: "ReadRows", T: btTable, WantChunks: true, Rs: bt.RowSet{Ranges: []bt.Range{{Sk: "open", S: advKeys[0], Ek: "none"}}}, Limit: 2})
+		// a limit that is only reached after the first response message has been sent
+		p = append(p, bt.Op{Ev: "ReadRows", T: btTable, Limit: len(bigKeys) - 1})
 		p = append(p, bt.Op{Ev: "SampleRowKeys", T: btTable})
 		progs = append(progs, p)
-		c.AddEval(2)
+		c.AddEval(3)
 		c.Nontrivial(describe(p))
 	}
 	// SampleRowKeys on 0, 1 and 300 rows (the 1 % sampling fires on the large one)
